@@ -37,7 +37,9 @@ PROPS = {
              assumptions=["sequential consistency for everything except the reference count; data-race freedom of the three dependencies is trusted"]),
     "C04": P([], "C04", "C04", "order,deque,default,races,deque,reuse", ORD, (2000, 50000)),
     "C05": P([], "C05", "C05", "stale,default,races,budget,groups,reuse", ALL, (1500, 40000), bombs="again",
-             trusted_extra=["harness/src/bombs.rs: scenarios with children whose destructor panics have their own oracle (the child records its own completion and destruction) - a panic unwinding out of the crate is outside the Gallina model"]),
+             generated_lemmas=["JoinOrderInst.join_order_ok"],
+             trusted_extra=["tools/build.py extract_joinorder (see C06): PinSlotMap::remove destroys the future with Pin::set",
+                            "harness/src/bombs.rs: scenarios with children whose destructor panics have their own oracle (the child records its own completion and destruction) - a panic unwinding out of the crate is outside the Gallina model"]),
     "C06": P([], "C06", "C06", "drops,default,stale,budget,groups,reuse", ALL, (2000, 50000), bombs="drop",
              generated_lemmas=["JoinOrderInst.join_order_ok"],
              trusted_extra=["tools/build.py extract_joinorder: regular expressions over the arm of JoinAll::poll / TryJoinAll::poll that handles a completed input and over PinSlotMap::remove, listing 'store the output', 'destroy the future', 'bookkeeping' in textual order; JoinPanic.v is a model of its own (panics are outside the executable model)",
